@@ -998,15 +998,21 @@ class Client():
         if self.redirects:
             redirect = self.redirects[-1]
             location = redirect['headers'].get('location')
+            if not location:  # nowhere to go
+                raise httping.InvalidURL("Redirect response without location")
             path, sep, query = location.partition('?')
             path = unquote(path)
             if sep:
                 location = sep.join([path, query])
             else:
                 location = path
-            splits = urlsplit(location)
+            try:  # urlsplit and .port raise ValueError on bad IPv6 host or port
+                splits = urlsplit(location)
+                port = splits.port
+            except ValueError as ex:
+                raise httping.InvalidURL("Invalid redirect location '{0}': {1}"
+                                         "".format(location, ex))
             hostname = splits.hostname
-            port = splits.port
             scheme = splits.scheme
             scheme = 'https' if scheme.lower() == 'https' else 'http'
             if scheme == 'https':
@@ -1022,7 +1028,11 @@ class Client():
 
             method = redirect.get('method')
 
-            host = coring.normalizeHost(hostname)
+            try:
+                host = coring.normalizeHost(hostname)
+            except OSError as ex:  # cannot resolve address of hostname
+                raise httping.InvalidURL("Unresolvable redirect location '{0}': {1}"
+                                         "".format(location, ex))
             ha = (host, port)
             if ha != self.connector.ha or scheme != self.requester.scheme:
                 if self.requester.scheme == 'https' and scheme != 'https':
@@ -1129,10 +1139,19 @@ class Client():
                                       ('errored', self.respondent.errored),
                                       ('error', self.respondent.error),
                                      ])
-                    if self.respondent.redirectable and self.respondent.redirectant:
+                    redirecting = (self.respondent.redirectable and
+                                   self.respondent.redirectant)
+                    if redirecting:
                         self.redirects.append(copy.copy(response))
-                        self.redirect()
-                    else:
+                        try:  # redirect raises before it changes anything
+                            self.redirect()
+                        except httping.HTTPException as ex:
+                            # refused so deliver redirect response as final errored response
+                            self.redirects.pop()
+                            response['errored'] = True
+                            response['error'] = str(ex)
+                            redirecting = False
+                    if not redirecting:
                         if self.redirects:
                             response['redirects'] = copy.copy(self.redirects)
                         self.redirects = []
